@@ -433,6 +433,23 @@ def _fields(repo, rep):
     rep.check(static_emit, "R03.3", va.qualname,
               "a static attribute is emitted as the format applied to its "
               "source text", construct="attr-static", where=L.where(va))
+    # ... and to nothing but the source text: both static sinks (plain and
+    # filter-guarded) write `attr_format % node.expression.value` unchanged
+    sinks = []
+    for it, conds in A.flatten(r.emission):
+        if isinstance(it, A.Internal) and it.kind == "EmitText":
+            sinks.append(A.show(it.args[0], limit=8))
+        elif isinstance(it, A.Frag) and "S" in it.slots and \
+                L.frag_find(it, "__append(S)", "expr"):
+            v = it.slots["S"]
+            if isinstance(v, A.Py) and v.kind == "Constant":
+                sinks.append(A.show(v.f.get("value"), limit=8))
+    want = "`attr_format % node.expression.value`"
+    rep.check(len(sinks) >= 2 and all(x == want for x in sinks), "R03.3",
+              va.qualname, "every static attribute sink writes the value "
+              "text itself into the format (no rewriting of the value)",
+              construct="attr-static-verbatim", where=L.where(va),
+              detail=str(sinks))
     # match_tag: value alternatives are folded into 'value'; suffix is what
     # follows the last attribute
     mt = repo.func(PARSER + ".match_tag")
